@@ -521,3 +521,92 @@ pub fn inject_random(n: &Node, rng: &mut Rng, sites: usize) -> Node {
     }
     cur
 }
+
+/// Counted repeats with bounds of two to four digits (the exhaustive spaces stop at 3), each
+/// with texts just below, at and above the bound. Returns (pattern, its texts).
+pub fn big_count_family(max_n: u32) -> Vec<(Node, Vec<String>)> {
+    let mut out = vec![];
+    for n in [10u32, 11, 20, 99, 100, 101, 105, 110, 200, 209, 256, 1000, 1005, 1100] {
+        if n > max_n {
+            continue;
+        }
+        let k = n as usize;
+        let mut texts: Vec<String> = vec![];
+        for m in [k / 10, k / 10 + 5, k - 1, k, k + 1] {
+            texts.push("a".repeat(m));
+            texts.push(format!("{}c", "a".repeat(m)));
+            texts.push(format!("b{}b", "a".repeat(m)));
+        }
+        for m in [k / 10, k - 1, k, k + 1] {
+            texts.push("ab".repeat(m));
+            texts.push(format!("{}b", "ba".repeat(m)));
+        }
+        texts.push("a".repeat(2 * k));
+        texts.push(format!("{} {}", "a".repeat(k), "a".repeat(k + 1)));
+        let a = la;
+        let pats = vec![
+            Repeat(b(a()), n, Some(n), Mode::Greedy),
+            Repeat(b(a()), n, None, Mode::Greedy),
+            Repeat(b(a()), n, None, Mode::Lazy),
+            Concat(vec![Repeat(b(Node::class("[ab]")), 2, Some(n), Mode::Greedy), Node::lit("c")]),
+            Concat(vec![Repeat(b(Node::class("[ab]")), 1, Some(n), Mode::Lazy), lb()]),
+            Repeat(b(Node::lit("ab")), n, Some(n), Mode::Greedy),
+            Concat(vec![Node::group(Repeat(b(a()), n, Some(n), Mode::Greedy)), Repeat(b(Backref(1)), 0, Some(1), Mode::Greedy)]),
+            Concat(vec![Assert(A::WordB), Repeat(b(a()), n, Some(n), Mode::Greedy), Assert(A::WordB)]),
+            Concat(vec![Repeat(b(Alt(vec![a(), lb()])), n, Some(n), Mode::Greedy), lb()]),
+            Concat(vec![Look(b(Repeat(b(a()), n, Some(n + 1), Mode::Greedy)), false, false), Repeat(b(a()), 1, None, Mode::Greedy)]),
+            Atomic(b(Repeat(b(a()), n - 1, Some(n), Mode::Greedy))),
+            Concat(vec![Look(b(Repeat(b(a()), n, Some(n), Mode::Greedy)), true, false), Node::lit("c")]),
+        ];
+        for p in pats {
+            out.push((p, texts.clone()));
+        }
+    }
+    out
+}
+
+/// Patterns whose match state is wide: 3-8 capture groups inside a counted loop with a word
+/// boundary assertion (so the VM runs it), a tail that makes the last iteration fail on some
+/// texts, and a fallback alternative. `fancy` also allows look-around, backreference tails.
+pub fn wide_group_family(seed: u64, count: usize, fancy: bool) -> Vec<(Node, Vec<String>)> {
+    let letters = ["a", "b", "c", "d", "e", "f", "g", "h"];
+    let mut rng = Rng::new(seed ^ 0x61DE);
+    let mut out = vec![];
+    for _ in 0..count {
+        let k = 3 + rng.below(6) as usize;
+        let mut body: Vec<Node> = vec![];
+        for l in letters.iter().take(k) {
+            let g = match rng.below(4) {
+                0 => Repeat(b(Node::group(Node::lit(l))), 0, Some(1), Mode::Greedy),
+                1 => Node::group(Alt(vec![Node::lit(l), Node::lit("z")])),
+                _ => Node::group(Node::lit(l)),
+            };
+            body.push(g);
+        }
+        let asserts = if fancy { vec![Assert(A::NotWordB), Assert(A::WordB), Look(b(Empty), false, false), Look(b(Node::lit("z")), false, true)] } else { vec![Assert(A::NotWordB), Assert(A::WordB)] };
+        let at = rng.below(body.len() as u64 + 1) as usize;
+        body.insert(at, asserts[rng.below(asserts.len() as u64) as usize].clone());
+        let (lo, hi) = [(2u32, Some(2u32)), (1, None), (2, Some(3)), (1, Some(2))][rng.below(4) as usize];
+        let lp = Repeat(b(Concat(body)), lo, hi, if rng.chance(1, 4) { Mode::Lazy } else { Mode::Greedy });
+        let mut tails = vec![Node::lit("x"), Node::lit("y"), Assert(A::WordB)];
+        if fancy {
+            tails.push(Backref(1 + rng.below(k as u64) as usize));
+            tails.push(Look(b(Node::lit("x")), false, false));
+        }
+        let tail = tails[rng.below(tails.len() as u64) as usize].clone();
+        let fallback = [Repeat(b(Node::class("\\w")), 1, None, Mode::Greedy), Repeat(b(Any(false)), 1, None, Mode::Lazy), Node::lit("a")][rng.below(3) as usize].clone();
+        let p = Alt(vec![Concat(vec![lp, tail]), fallback]);
+        let unit: String = letters.iter().take(k).copied().collect();
+        let mut texts = vec![];
+        for reps in 1..=3usize {
+            for end in ["x", "y", "", " x", "a"] {
+                texts.push(format!("{}{}", unit.repeat(reps), end));
+            }
+        }
+        texts.push(format!("{}{}x", unit, &unit[..unit.len() - 1]));
+        texts.push(format!("{}z{}y {}{}x", &unit[..1], &unit[2..], unit, unit));
+        texts.push(format!("{u}{u}y {u}{u}x", u = unit));
+        out.push((p, texts));
+    }
+    out
+}
